@@ -71,6 +71,7 @@ type Contract struct {
 	Inline   bool
 	Split    bool // path-sensitive execution (no state merging at joins)
 	Dispatch map[string][]string // call site -> candidate methods (Type.Method) for an interface call
+	Use      map[string]string   // call site -> key of the (assumed) contract to apply at this interface call instead of the generic one
 	File     string
 	Line     int
 }
@@ -195,6 +196,16 @@ func (sp *Specs) LoadFile(path, defaultPkg string) error {
 					cur.Dispatch = map[string][]string{}
 				}
 				cur.Dispatch[f[0]] = f[1:]
+			case "use":
+				f := strings.Fields(rest)
+				if len(f) != 2 {
+					return fail(fmt.Errorf("use needs a call site and a contract key"))
+				}
+				if cur.Use == nil {
+					cur.Use = map[string]string{}
+				}
+				cur.Use[f[0]] = f[1]
+				sp.Markers = append(sp.Markers, where+": "+cur.Key+" applies contract "+f[1]+" at "+f[0])
 			case "requires", "ensures", "checks", "effect":
 				props, rest2 := takeProps(rest)
 				e, err := ParseExpr(rest2)
